@@ -84,6 +84,52 @@ def uncps(l) -> str:
     return "".join(chr(c) for c in l)
 
 
+def json_sx(x):
+    """Python JSON/YAML value -> wire form of the model's [json] type (string keys only)."""
+    from decimal import Decimal
+    if x is None:
+        return "null"
+    if isinstance(x, bool):
+        return "true" if x else "false"
+    if isinstance(x, int):
+        return ["i", x]
+    if isinstance(x, float):
+        x = Decimal(str(x))
+    if isinstance(x, Decimal):
+        if not x.is_finite():
+            raise ValueError("non-finite number is outside the model's json type")
+        sign, digits, exp = x.as_tuple()
+        m = int("".join(map(str, digits)) or "0")
+        return ["d", -m if sign else m, exp]
+    if isinstance(x, str):
+        return ["s"] + [ord(c) for c in x]
+    if isinstance(x, (list, tuple)):
+        return ["a"] + [json_sx(y) for y in x]
+    if isinstance(x, dict):
+        out = ["o"]
+        for k, v in x.items():
+            if not isinstance(k, str):
+                raise ValueError("non-string key is outside the model's json type")
+            out.append([[ord(c) for c in k], json_sx(v)])
+        return out
+    raise ValueError(f"not a JSON value: {type(x)}")
+
+
+def doc_chars(x, acc=None):
+    """all non-ASCII characters occurring in string values/keys of a document"""
+    acc = set() if acc is None else acc
+    if isinstance(x, str):
+        acc.update(c for c in x if ord(c) > 127)
+    elif isinstance(x, (list, tuple)):
+        for y in x:
+            doc_chars(y, acc)
+    elif isinstance(x, dict):
+        for k, v in x.items():
+            doc_chars(k, acc)
+            doc_chars(v, acc)
+    return acc
+
+
 class Driver:
     """One extracted-model process; batch request/reply."""
 
@@ -333,7 +379,9 @@ def build_driver(component: str, extract_file: str):
     log = out
     if "Error" in out:
         return False, log
-    srcs = [COQ / "extract" / extract_file, VERIF / "ocaml" / "sx.ml", VERIF / "ocaml" / "conv.ml", VERIF / "ocaml" / f"{component}_driver.ml"]
+    drv_src = (VERIF / "ocaml" / f"{component}_driver.ml").read_text()
+    extra = [VERIF / "ocaml" / "convjson.ml"] if "open Convjson" in drv_src else []
+    srcs = [COQ / "extract" / extract_file, VERIF / "ocaml" / "sx.ml", VERIF / "ocaml" / "conv.ml"] + extra + [VERIF / "ocaml" / f"{component}_driver.ml"]
     vos = sorted((COQ / "theories").glob("*.vo"))
     stamp = file_digest(srcs + vos)
     stamp_file = gdir / ".stamp"
@@ -345,7 +393,7 @@ def build_driver(component: str, extract_file: str):
         return False, log
     for s in srcs[1:]:
         (gdir / s.name).write_text(s.read_text())
-    rc, out = sh(["ocamlfind", "ocamlopt", "-w", "-a", "sx.ml", "Model.mli", "Model.ml", "conv.ml", f"{component}_driver.ml", "-o", str(exe)], cwd=gdir)
+    rc, out = sh(["ocamlfind", "ocamlopt", "-O3" if False else "-inline", "100", "-w", "-a", "sx.ml", "Model.mli", "Model.ml", "conv.ml"] + [e.name for e in extra] + [f"{component}_driver.ml", "-o", str(exe)], cwd=gdir)
     log += out
     if rc != 0:
         return False, log
